@@ -184,6 +184,8 @@ class Tr:
         self.methods = spec.get("methods", {})           # (receiver type, method) -> call spec
         self.attrs = spec.get("attrs", {})               # (receiver type, attribute) -> (coq function, type)
         self.binops = spec.get("binops", {})             # (type, op, type) -> (coq function, type)
+        self.cmpops = spec.get("cmpops", {})             # (type, comparison, type) -> coq function to bool
+        self.annotations = spec.get("annotations", {})   # source text of an annotation -> type
         self.effects = spec.get("effects", {})           # unparsed callee -> dict(var, args, update)
         self.enums = spec.get("enums", {})               # type -> (eqb, {literal: constructor})
         self.tuples = spec.get("tuples", {})             # type -> [component types] (a left-nested Coq product)
@@ -713,6 +715,12 @@ class Tr:
             else:
                 raise Unsupported(f"membership of {ta}")
             return (r if isinstance(op, ast.In) else f"(negb {r})"), "B"
+        if self.cmpops:
+            a, ta = self.expr0(e.left, env)
+            b, tb = self.expr0(rhs, env)
+            sy = {ast.Lt: "<", ast.LtE: "<=", ast.Gt: ">", ast.GtE: ">=", ast.Eq: "==", ast.NotEq: "!="}.get(type(op))
+            if (ta, sy, tb) in self.cmpops:
+                return f"({self.cmpops[(ta, sy, tb)]} {a} {b})", "B"
         if isinstance(op, (ast.Eq, ast.NotEq)):
             a, ta = self.expr0(e.left, env)
             # an enum compared with a string literal
@@ -868,6 +876,13 @@ class Tr:
         if fn == "range" and len(e.args) == 1 and not e.keywords:
             n, _ = self.expr(e.args[0], env, "Z")
             return f"(zrange {n})", "L:Z"
+        if fn == "int" and "int" not in env and len(e.args) == 1 and not e.keywords:
+            # int(x) of an int is x (a float never has type Z here: a library call declared to return Z
+            # returns a whole number)
+            t, ty = self.expr0(e.args[0], env)
+            if ty != "Z":
+                raise Unsupported(f"int() of {ty}")
+            return t, "Z"
         if fn == "cast" and len(e.args) == 2 and not e.keywords and ast.unparse(e.args[0]) == "int":
             # typing.cast(int, x): no run-time effect; x must be an int here
             return self.expr(e.args[1], env, "Z")
@@ -1367,7 +1382,8 @@ class Tr:
             else:
                 if s.value is None:
                     raise Unsupported("annotated assignment")
-                key, value, decl = self.target_key(s.target), s.value, ann_type(s.annotation)
+                decl = self.annotations.get(ast.unparse(s.annotation)) or ann_type(s.annotation)
+                key, value = self.target_key(s.target), s.value
             if key.startswith("@"):
                 want = self.genparams[key[1:]]
             else:
